@@ -61,6 +61,8 @@ type scope struct {
 	fns     []fnInfo // callable by name from here (lower rank than the current function)
 	bound   []string // variables holding numeric functions (closures, bound functions)
 	iters   []string // objects that are only read: the subjects of for-in (never extended or shrunk)
+	withs   []string // objects used as `with` subjects: their properties are named like the global variables
+	inWith  string   // the subject of the innermost enclosing `with` generated in this function body
 	inFunc  bool
 	rank    int
 	params  []string
@@ -208,6 +210,10 @@ func (g *Gen) boolean(sc *scope, d int) node {
 			}
 			if len(ks) > 0 {
 				k := ks[r.Intn(len(ks))]
+				if r.Intn(4) == 0 {
+					// the constructor's own prototype object is not an instance of the constructor
+					return node{"(" + k.name + ".prototype instanceof " + k.name + ")", fmt.Sprintf("(XInstanceof (XGet (XVar %s) %s) (XVar %s))", cstr(k.name), cstr("prototype"), cstr(k.name))}
+				}
 				o := g.objRef(sc)
 				return node{"(" + o.js + " instanceof " + k.name + ")", fmt.Sprintf("(XInstanceof %s (XVar %s))", o.coq, cstr(k.name))}
 			}
@@ -372,6 +378,26 @@ func (g *Gen) stmt(sc *scope, labs []lab, loopDepth int, inLoop bool, ind string
 		return []node{g.logOf(sc)}
 	}
 	in2 := ind + "  "
+	if len(sc.withs) > 0 && r.Intn(22) == 0 {
+		// with: identifiers named like the subject's properties resolve to the object while it has them
+		g.Stats["with"]++
+		w := g.pick(sc.withs)
+		inner := *sc
+		inner.inWith = w
+		body := block(g.list(&inner, 2+r.Intn(3), labs, loopDepth, inLoop, in2), in2)
+		return []node{{"with (" + w + ") " + body.js, fmt.Sprintf("(JWith (XVar %s) %s)", cstr(w), body.coq)}}
+	}
+	if sc.inWith != "" && r.Intn(5) == 0 {
+		// change which names the with subject has: the same identifier occurrence resolves differently afterwards
+		g.Stats["with-toggle"]++
+		w := sc.inWith
+		f := g.pick([]string{"g0", "g1", "g2"})
+		if r.Intn(2) == 0 {
+			return []node{{"delete " + w + "." + f + ";", fmt.Sprintf("(JExpr (XDelete (XVar %s) %s))", cstr(w), cstr(f))}}
+		}
+		e := g.num(sc, 1)
+		return []node{{w + "." + f + " = " + e.js + ";", fmt.Sprintf("(JExpr (XSet (XVar %s) %s %s))", cstr(w), cstr(f), e.coq)}}
+	}
 	k := r.Intn(100)
 	switch {
 	case k < 22:
@@ -570,6 +596,7 @@ func (g *Gen) funcBody(outer *scope, fi fnInfo, thisObj bool, bodyLen int) (para
 	sc.objs = append(sc.objs, outer.objs...)
 	sc.bound = append(sc.bound, outer.bound...)
 	sc.iters = append(sc.iters, outer.iters...)
+	sc.withs = append(sc.withs, outer.withs...)
 	for _, f := range outer.fns {
 		if f.rank < fi.rank {
 			sc.fns = append(sc.fns, f)
@@ -634,6 +661,10 @@ func Generate(r *rand.Rand, budget int) Program {
 		node{"FI.prototype.z = 9;", "(JExpr (XSet (XGet (XVar " + cstr("FI") + ") " + cstr("prototype") + ") " + cstr("z") + " (XLit (WNum 9))))"},
 		node{"var it2 = new FI();", "(JVar " + cstr("it2") + " (Some (XNew (XVar " + cstr("FI") + ") [])))"})
 	top.iters = []string{"it1", "it2"}
+	stmts = append(stmts,
+		node{"var w1 = { g0: 10, g2: 30 };", "(JVar " + cstr("w1") + " (Some (XObj [(" + cstr("g0") + ", XLit (WNum 10)); (" + cstr("g2") + ", XLit (WNum 30))])))"},
+		node{"var w2 = { g1: 20 };", "(JVar " + cstr("w2") + " (Some (XObj [(" + cstr("g1") + ", XLit (WNum 20))])))"})
+	top.withs = []string{"w1", "w2"}
 	nf := 2 + r.Intn(4)
 	for i := 0; i < nf; i++ {
 		rank := i + 1
@@ -656,7 +687,7 @@ func Generate(r *rand.Rand, budget int) Program {
 		case 1:
 			// maker: returns a closure over its parameter and a local counter
 			inner := fnInfo{name: "", rank: rank, params: 1 + r.Intn(2), kind: 0}
-			msc := &scope{nums: append([]string{fmt.Sprintf("c%d", rank), fmt.Sprintf("q%d", rank)}, top.nums...), objs: top.objs, iters: top.iters, bound: nil, fns: nil}
+			msc := &scope{nums: append([]string{fmt.Sprintf("c%d", rank), fmt.Sprintf("q%d", rank)}, top.nums...), objs: top.objs, iters: top.iters, withs: top.withs, bound: nil, fns: nil}
 			for _, f := range top.fns {
 				if f.rank < rank {
 					msc.fns = append(msc.fns, f)
@@ -751,6 +782,12 @@ func Generate(r *rand.Rand, budget int) Program {
 		}
 		stmts = append(stmts, node{"log(" + v + ");", "(JExpr (XLog (XVar " + cstr(v) + ")))"})
 	}
+	for _, wf := range [][2]string{{"w1", "g0"}, {"w1", "g1"}, {"w1", "g2"}, {"w2", "g0"}, {"w2", "g1"}} {
+		if !epilogue {
+			break
+		}
+		stmts = append(stmts, node{"log(" + wf[0] + "." + wf[1] + ");", fmt.Sprintf("(JExpr (XLog (XGet (XVar %s) %s)))", cstr(wf[0]), cstr(wf[1]))})
+	}
 	for _, o := range top.objs {
 		if !epilogue {
 			break
@@ -762,7 +799,7 @@ func Generate(r *rand.Rand, budget int) Program {
 	// scatter the function declarations among the global statements (they are hoisted)
 	all := stmts
 	for _, d := range decls {
-		pos := 12 + r.Intn(len(all)-12+1) // after the fixed prologue, anywhere else
+		pos := 14 + r.Intn(len(all)-14+1) // after the fixed prologue, anywhere else
 		all = append(all[:pos], append([]node{d}, all[pos:]...)...)
 	}
 	var js strings.Builder
